@@ -69,6 +69,13 @@ def concretise(show, classes, sentinel):
             if chosen.get('shadow') and chosen.get('shadow') in (chosen.get('cap'), chosen.get('pure')):
                 return          # the same identifier cannot be both the AST key and the builtin
             e = text.replace('(lambda:K)()', "(lambda: 'ab')()").replace('[c_for_c_in_K]', "[c for c in 'ab']")
+            e = e.replace('genx', "(0 for _ in 'ab')")
+            # introspection attributes: the first one in a chain is a generator's frame, the following ones walk the callers
+            if '.f_i' in e:
+                e = e.replace('.f_i', '.gi_frame', 1)
+                for nm in ('.f_back', '.f_globals', '.f_builtins'):
+                    e = e.replace('.f_i', nm, 1)
+                e = e.replace('.f_i', '.f_back')
             e = e.replace('FMT__', "'{0.__class__.__name__}'.format").replace('FMT', "'{0.real}'.format")
             # a dunder written with a compatibility low line (U+FF3F): identifiers are NFKC-normalised when the expression is compiled,
             # so this IS .__class__ although the text holds no ASCII double underscore
